@@ -60,6 +60,9 @@ def make_objective(name, np, ub, rettype):
         # the unconstrained optimum lies beyond the upper bounds: every out-of-box step towards it is an improvement
         tgt = ubc + 1.0 + 0.5 * np.abs(ubc)
         return lambda x: conv(np.sum((x - tgt) ** 2))
+    if name == 'tiny':
+        # every value (and so every improvement) is far below 1e-10: a strict improvement is one however small
+        return lambda x: conv(1e-13 * np.sum((x - 0.25 * ubc) ** 2))
     if name == 'rastrigin':
         return lambda x: conv(10 * x.size + np.sum(x ** 2 - 10 * np.cos(2 * np.pi * x)))
     if name == 'plateau':
